@@ -158,4 +158,13 @@ theorem equivChecks_sound (k s : Check) (h : equivChecks k s = true) (σ : Atom 
   rw [hk, hs]
   simpa using hall
 
+theorem scopeOk_project (c : Creds) : scopeOk [n!"project"] c = true ↔ tokenScope c = n!"project" := by
+  simp [scopeOk]
+
+theorem evalRule_override_self (name : Name) (x : Check) (rest : Rules) (c : Creds) (t : Target)
+    (hx : x = .tt ∨ x = .ff) : evalRule ((name, x) :: rest) name c t = (x == .tt) := by
+  unfold evalRule fuelFor
+  simp only [List.length_cons, ruleVal, List.lookup, beq_self_eq_true]
+  rcases hx with rfl | rfl <;> simp [evalWith]
+
 end Placement.Policy
